@@ -191,6 +191,8 @@ class World:
                     continue
                 os.makedirs(os.path.dirname(full), exist_ok=True)
                 if isinstance(content, bytes):
+                    if b"<ROOT>" in content:
+                        content = content.replace(b"<ROOT>", self.root.encode())
                     with open(full, "wb") as fh:
                         fh.write(content)
                 else:
